@@ -179,4 +179,206 @@ theorem step_reserve {c : Cfg} (hc : c.Fixed) {s : State} (h : SInv s) (i k n : 
     · exact pool_step h hp (Nat.le_succ _) hok2 hdev2 hrel rfl (by other_pools) rfl rfl
     · exact pool_step h hp (Nat.le_succ _) hok2 hdev2 hrel rfl (by other_pools) rfl rfl
 
+/-! ### where a slot lives -/
+
+theorem locate_cases (s : State) (k : Nat) :
+    (∃ i p r, s.locate k = some (.inPool i p r) ∧ s.pool i = some p ∧ findSlot k p.resv = some r) ∨
+    (∃ m, s.locate k = some (.inDev m) ∧ findMem k s.mems = some m) ∨ s.locate k = none := by
+  have dev : (locateIn 0 s.pool0 k = none) → (locateIn 1 s.pool1 k = none) →
+      (∃ m, s.locate k = some (.inDev m) ∧ findMem k s.mems = some m) ∨ s.locate k = none := by
+    intro e0 e1
+    cases hm : findMem k s.mems with
+    | some m => exact Or.inl ⟨m, by simp only [State.locate, e0, e1, hm], rfl⟩
+    | none => exact Or.inr (by simp only [State.locate, e0, e1, hm])
+  have p1 : (locateIn 0 s.pool0 k = none) →
+      (∃ i p r, s.locate k = some (.inPool i p r) ∧ s.pool i = some p ∧ findSlot k p.resv = some r) ∨
+      (∃ m, s.locate k = some (.inDev m) ∧ findMem k s.mems = some m) ∨ s.locate k = none := by
+    intro e0
+    cases h1 : s.pool1 with
+    | some q =>
+      cases hg : findSlot k q.resv with
+      | some r =>
+        exact Or.inl ⟨1, q, r, by unfold State.locate; rw [e0]; simp only [locateIn, h1, hg], h1, hg⟩
+      | none => exact Or.inr (dev e0 (by simp only [locateIn, h1, hg]))
+    | none => exact Or.inr (dev e0 (by simp only [locateIn, h1]))
+  cases h0 : s.pool0 with
+  | some p =>
+    cases hf : findSlot k p.resv with
+    | some r => exact Or.inl ⟨0, p, r, by simp only [State.locate, locateIn, h0, hf], h0, hf⟩
+    | none => exact p1 (by simp only [locateIn, h0, hf])
+  | none => exact p1 (by simp only [locateIn, h0])
+
+/-! ### release -/
+
+/-- releasing slot `k`: nothing else changes in any pool -/
+def ReleaseRel (k : Nat) (s s' : State) : Prop :=
+  ∀ j p p', s.pool j = some p → s'.pool j = some p' →
+    p'.buf = p.buf ∧ p'.align = p.align ∧ p'.size = p.size ∧
+    ∀ k', k' ≠ k → findSlot k' p'.resv = findSlot k' p.resv
+
+theorem ReleaseRel.refl (k : Nat) (s : State) : ReleaseRel k s s := by
+  intro j p p' h1 h2; rw [h1] at h2; cases h2; exact ⟨rfl, rfl, rfl, fun _ _ => rfl⟩
+
+theorem releaseRel_of_pools_eq {k : Nat} {s s' : State} (h : ∀ j, s'.pool j = s.pool j) : ReleaseRel k s s' := by
+  intro j p p' h1 h2; rw [h j, h1] at h2; cases h2; exact ⟨rfl, rfl, rfl, fun _ _ => rfl⟩
+
+theorem mem_eraseMem {k : Nat} {x : DMem} {l : List DMem} (h : x ∈ eraseMem k l) : x ∈ l := by
+  induction l with
+  | nil => simp [eraseMem] at h
+  | cons y ys ih =>
+    unfold eraseMem at h
+    split at h
+    · exact List.mem_cons_of_mem _ h
+    · rcases List.mem_cons.1 h with rfl | h
+      · exact List.mem_cons_self
+      · exact List.mem_cons_of_mem _ (ih h)
+
+theorem eraseMem_sublist (k : Nat) (l : List DMem) : (eraseMem k l).Sublist l := by
+  induction l with
+  | nil => simp [eraseMem]
+  | cons y ys ih =>
+    unfold eraseMem
+    split
+    · exact List.sublist_cons_self y ys
+    · exact ih.cons_cons y
+
+theorem eraseBuf_sublist (i : Nat) (l : List DBuf) : (eraseBuf i l).Sublist l := by
+  induction l with
+  | nil => simp [eraseBuf]
+  | cons y ys ih =>
+    unfold eraseBuf
+    split
+    · exact List.sublist_cons_self y ys
+    · exact ih.cons_cons y
+
+theorem findBuf_none {i : Nat} {l : List DBuf} (h : findBuf i l = none) : ∀ y ∈ l, y.id ≠ i := by
+  induction l with
+  | nil => simp
+  | cons z zs ih =>
+    unfold findBuf at h
+    split at h
+    · cases h
+    · rename_i hz
+      intro y hy
+      rcases List.mem_cons.1 hy with rfl | hy
+      · exact hz
+      · exact ih h y hy
+
+theorem release_inv {c : Cfg} (hc : c.Fixed) {s : State} (h : SInv s) (k : Nat) :
+    SInv (s.release c k) ∧ ReleaseRel k s (s.release c k) := by
+  rcases locate_cases s k with ⟨i, p, r, hloc, hp, hf⟩ | ⟨m, hloc, hm⟩ | hloc
+  · -- a pool reservation
+    have hok := h.pools i p hp
+    have hrs : r.slot = k := (findSlot_some hf).2
+    have hf' : findSlot r.slot p.resv = some r := by rw [hrs]; exact hf
+    have hst : s.release c k = s.setPool i (some (p.removeRef c r)) := by
+      unfold State.release; rw [hloc]
+    rw [hst]
+    have hinv := removeRef_inv hc.2.2.1 hok.inv hf'
+    have heq := removeRef_eq hc.2.2.1 hok.inv hf'
+    have hmem : ∀ x ∈ (p.removeRef c r).resv, x ∈ p.resv := by
+      intro x hx; rw [heq] at hx; exact mem_eraseSlot hx
+    have hok1 : PoolOK s.nextFam (p.removeRef c r) :=
+      ⟨hinv, fun x hx => hok.fams x (hmem x hx), fun x hx => hok.slots x (hmem x hx)⟩
+    have hsz : (p.removeRef c r).size = p.size := by rw [heq]
+    have hrel : (p.removeRef c r).buf = p.buf ∧ (p.removeRef c r).align = p.align ∧ (p.removeRef c r).size = p.size ∧
+        ∀ k', k' ≠ k → findSlot k' (p.removeRef c r).resv = findSlot k' p.resv := by
+      refine ⟨by rw [heq], by rw [heq], hsz, ?_⟩
+      intro k' hk'
+      exact removeRef_sameContents hc.2.2.1 hok.inv hf' k' (by rw [hrs]; exact hk')
+    have hgen : ∀ s' : State, s'.pool i = some (p.removeRef c r) → (∀ j, j ≠ i → s'.pool j = s.pool j) →
+        s'.nextFam = s.nextFam → s'.dev = s.dev → s'.bufs = s.bufs → s'.mems = s.mems →
+        SInv s' ∧ ReleaseRel k s s' := by
+      intro s' hpi hpj hnf hd hb hmm
+      refine ⟨sinv_update_pool h hp (Nat.le_of_eq hnf.symm) (by rw [hnf]; exact hok1)
+        (by rw [hd]; exact devStep_same h.dev hsz) hpi hpj hb hmm, ?_⟩
+      intro j q q' h1 h2
+      by_cases hji : j = i
+      · subst hji; rw [hp] at h1; rw [hpi] at h2; cases h1; cases h2; exact hrel
+      · rw [hpj j hji, h1] at h2; cases h2; exact ⟨rfl, rfl, rfl, fun _ _ => rfl⟩
+    rcases pool_index hp with rfl | rfl
+    · exact hgen _ rfl (by other_pools) rfl rfl rfl rfl
+    · exact hgen _ rfl (by other_pools) rfl rfl rfl rfl
+  · -- a device memory
+    have hmm := findMem_some hm
+    have hperm := eraseMem_perm hm
+    have hsub := eraseMem_sublist k s.mems
+    have hslots' : ((eraseMem k s.mems).map (·.slot)).Nodup := h.memSlots.sublist (hsub.map _)
+    have hbelow' : ∀ x ∈ eraseMem k s.mems, x.slot < NSLOT := fun x hx => h.memBelow x (mem_eraseMem hx)
+    unfold State.release
+    rw [hloc]
+    simp only []
+    split
+    · -- other memories still use the buffer
+      rename_i hany
+      refine ⟨sinv_update_dev h (Nat.le_refl _) (fun j => by rcases j with _ | _ | j <;> rfl) h.dev rfl h.bufIds h.bufBelow
+        ?_ hslots' hbelow', releaseRel_of_pools_eq (fun j => by rcases j with _ | _ | j <;> rfl)⟩
+      intro b hb
+      obtain ⟨x, hx, hxb⟩ := h.bufLive b hb
+      rcases List.mem_cons.1 (hperm.mem_iff.1 hx) with rfl | hx'
+      · obtain ⟨y, hy, hyb⟩ := List.any_eq_true.1 hany
+        exact ⟨y, hy, by rw [← hxb]; simpa using hyb⟩
+      · exact ⟨x, hx', hxb⟩
+    · rename_i hany
+      have hnone : ∀ x ∈ eraseMem k s.mems, x.buf ≠ m.buf := by
+        intro x hx e
+        exact hany (List.any_eq_true.2 ⟨x, hx, by simpa using e⟩)
+      cases hfb : findBuf m.buf s.bufs with
+      | none =>
+        simp only []
+        refine ⟨sinv_update_dev h (Nat.le_refl _) (fun j => by rcases j with _ | _ | j <;> rfl) h.dev rfl h.bufIds h.bufBelow
+          ?_ hslots' hbelow', releaseRel_of_pools_eq (fun j => by rcases j with _ | _ | j <;> rfl)⟩
+        intro b hb
+        obtain ⟨x, hx, hxb⟩ := h.bufLive b hb
+        rcases List.mem_cons.1 (hperm.mem_iff.1 hx) with rfl | hx'
+        · exfalso
+          have := findBuf_none hfb
+          exact this b hb hxb.symm
+        · exact ⟨x, hx', hxb⟩
+      | some b =>
+        simp only []
+        have hb := findBuf_some hfb
+        have hbperm := eraseBuf_perm hfb
+        have hbsub := eraseBuf_sublist m.buf s.bufs
+        have hcb : countedBytes s.bufs = (if b.counted then b.size else 0) + countedBytes (eraseBuf m.buf s.bufs) := by
+          rw [countedBytes_perm hbperm]; rfl
+        have hacc := h.account
+        have hids' : ((eraseBuf m.buf s.bufs).map (·.id)).Nodup := h.bufIds.sublist (hbsub.map _)
+        have hnotin : ∀ y ∈ eraseBuf m.buf s.bufs, y.id ≠ m.buf := by
+          have hn := h.bufIds
+          rw [(hbperm.map (·.id)).nodup_iff, List.map_cons, List.nodup_cons] at hn
+          intro y hy e
+          exact hn.1 (List.mem_map.2 ⟨y, hy, by rw [e, hb.2]⟩)
+        refine ⟨sinv_update_dev h (Nat.le_refl _) (fun j => by rcases j with _ | _ | j <;> rfl) ?_ ?_ hids'
+          (fun y hy => h.bufBelow y (hbsub.subset hy)) ?_ hslots' hbelow',
+          releaseRel_of_pools_eq (fun j => by rcases j with _ | _ | j <;> rfl)⟩
+        · show DevOK (if b.counted then s.dev.sub b.size else s.dev)
+          split
+          · exact h.dev.sub _
+          · exact h.dev
+        · show (if b.counted then s.dev.sub b.size else s.dev).alloc + countedBytes s.bufs =
+            s.dev.alloc + countedBytes (eraseBuf m.buf s.bufs)
+          rw [hcb]
+          cases hcnt : b.counted
+          · simp
+          · simp only [if_true, Dev.sub_alloc]
+            rw [hcb, hcnt] at hacc
+            simp only [if_true] at hacc
+            omega
+        · intro y hy
+          obtain ⟨x, hx, hxb⟩ := h.bufLive y (hbsub.subset hy)
+          rcases List.mem_cons.1 (hperm.mem_iff.1 hx) with rfl | hx'
+          · exact absurd hxb.symm (hnotin y hy)
+          · exact ⟨x, hx', hxb⟩
+  · have : s.release c k = s := by unfold State.release; rw [hloc]
+    rw [this]; exact ⟨h, ReleaseRel.refl k s⟩
+
+theorem step_release {c : Cfg} (hc : c.Fixed) {s : State} (h : SInv s) (k : Nat) :
+    SInv (step c s (.release k)).1 ∧ ReleaseRel k s (step c s (.release k)).1 := by
+  by_cases hl : s.slotLive k = true
+  · have : (step c s (.release k)).1 = s.release c k := by simp only [step, if_pos hl]
+    rw [this]; exact release_inv hc h k
+  · have : (step c s (.release k)).1 = s := by simp only [step, if_neg hl]
+    rw [this]; exact ⟨h, ReleaseRel.refl k s⟩
+
 end Occa.Pool
